@@ -181,6 +181,15 @@ func init() {
 			e.extra["now_hook"] = a[0]
 			return nil
 		},
+		"vfLockHook": func(e *Exec, fn *ssa.Function, a []Value) Value {
+			hk, _ := e.extra["lock_hook"].(map[*Value]Value)
+			if hk == nil {
+				hk = map[*Value]Value{}
+				e.extra["lock_hook"] = hk
+			}
+			hk[a[0].(*Value)] = a[1]
+			return nil
+		},
 		"vfHavocLoads": func(e *Exec, fn *ssa.Function, a []Value) Value {
 			h, _ := e.extra["havoc"].(map[*Value]int)
 			if h == nil {
@@ -206,6 +215,14 @@ func init() {
 		p := a[0].(*Value)
 		if p == nil {
 			panic(targetPanic{v: "nil mutex", kind: "nil pointer dereference", fn: fn.String()})
+		}
+		// vfLockHook(m, f): f runs once, right before the next Lock of m (a schedule point: what another thread does
+		// between the caller's previous instruction and its acquiring m)
+		if hk, ok := e.extra["lock_hook"].(map[*Value]Value); ok {
+			if f, has := hk[p]; has {
+				delete(hk, p)
+				e.callValue(nil, f, nil)
+			}
 		}
 		if e.mutexHeld[p] {
 			panic(pathEnd{"deadlock", "acquire of a mutex the thread already holds: " + e.stackString()})
